@@ -579,7 +579,16 @@ impl IoLoop {
             let had_data_to_write = self.inner.has_data_to_write();
 
             for event in events.iter() {
-                handle_event(self, stream, state, event)?;
+                if let Err(err) = handle_event(self, stream, state, event) {
+                    // If the connection has already run to completion (e.g., we just
+                    // processed the server's CloseOk), a failure later in this same batch -
+                    // typically the server closing the socket right behind its CloseOk - is
+                    // not an error.
+                    if is_done(self, state) {
+                        return Ok(());
+                    }
+                    return Err(err);
+                }
             }
 
             if is_done(self, state) {
